@@ -1,14 +1,24 @@
 use crate::Ctx;
 
 pub mod c01;
+pub mod c02;
+pub mod c08;
+pub mod c09;
 pub mod c12;
 pub mod c20;
 
 pub fn dispatch(prop: &str, ctx: &Ctx) -> ! {
     match prop {
         "C01" => c01::run(ctx),
+        "C02" => c02::run(ctx),
+        "C08" => c08::run(ctx),
+        "C09" => c09::run(ctx),
         "C12" => c12::run(ctx),
         "C20" => c20::run(ctx),
+        "CALIBRATE" => {
+            println!("tree: {:?}", crate::refmodel::tree::calibrate());
+            std::process::exit(0)
+        }
         _ => {
             eprintln!("unknown or unimplemented property {prop}");
             std::process::exit(2);
